@@ -82,6 +82,136 @@ pub struct RlCase {
     /// every kind of event listener is registered on the layer
     #[serde(default)]
     pub listeners: bool,
+    /// C15 only: instead of a simulated history, clones of one limiter are hammered from real OS
+    /// threads (see crate::stress)
+    #[serde(default)]
+    pub stress: Option<RlStress>,
+}
+
+#[derive(Clone, Debug, Serialize, Deserialize)]
+pub struct RlStress {
+    pub window: u8,
+    pub threads: usize,
+    pub iters: u32,
+    /// None: the window holds more permits than calls are made (nobody may be rejected);
+    /// Some(l): l permits in a window that never ends (exactly l calls are admitted)
+    pub limit: Option<usize>,
+    /// timeout_duration in ms (0 = reject at once)
+    pub timeout_ms: u64,
+}
+
+fn stress_strategy(tier: Tier) -> BoxedStrategy<RlCase> {
+    let iters = match tier {
+        Tier::Quick => 4_000u32,
+        Tier::Thorough => 30_000,
+    };
+    (0u8..3, 2usize..=8, prop_oneof![2 => Just(None), 1 => (1usize..=2000).prop_map(Some)], prop_oneof![2 => Just(0u64), 1 => 1u64..=5])
+        .prop_map(move |(window, threads, limit, timeout_ms)| RlCase {
+            window,
+            limit: 1,
+            period: 10,
+            timeout: Rel { half_periods: 0, off: 0 },
+            timeout_forever: false,
+            setter_order: 0,
+            build_offset_us: 0,
+            clones: 1,
+            callers: vec![],
+            order: vec![],
+            stall: None,
+            busy: None,
+            listeners: false,
+            stress: Some(RlStress {
+                window,
+                threads,
+                iters,
+                limit,
+                // a limited window with a non-zero timeout would make callers wait for a window
+                // that never comes
+                timeout_ms: if limit.is_some() { 0 } else { timeout_ms },
+            }),
+        })
+        .boxed()
+}
+
+/// Real-thread stress of one rate limiter. The window lasts an hour of a clock that does not move,
+/// so "the current window has spare capacity" is exactly "fewer than limit admissions so far".
+pub fn run_rl_stress(st: &RlStress) -> Report {
+    use std::future::Future;
+    use std::sync::atomic::{AtomicUsize, Ordering};
+    use std::sync::Arc;
+    let mut r = Report::default();
+    let entered = Arc::new(AtomicUsize::new(0));
+    let e2 = entered.clone();
+    let inner = tower::service_fn(move |_: ()| {
+        e2.fetch_add(1, Ordering::SeqCst);
+        async { Ok::<(), crate::svc::SErr>(()) }
+    });
+    let total = st.threads * st.iters as usize;
+    let limit = st.limit.unwrap_or(total + 1000);
+    let layer = RateLimiterLayer::builder()
+        .limit_for_period(limit)
+        .refresh_period(Duration::from_secs(3600))
+        .timeout_duration(Duration::from_millis(st.timeout_ms))
+        .window_type(match st.window {
+            0 => WindowType::Fixed,
+            1 => WindowType::SlidingLog,
+            _ => WindowType::SlidingCounter,
+        })
+        .build();
+    let base = layer.layer(inner);
+    let admitted = Arc::new(AtomicUsize::new(0));
+    let rejected = Arc::new(AtomicUsize::new(0));
+    let undecided = Arc::new(AtomicUsize::new(0));
+    let (a2, r2, u2) = (admitted.clone(), rejected.clone(), undecided.clone());
+    let iters = st.iters;
+    let proto = std::sync::Mutex::new(base.clone());
+    let panicked = crate::stress::run_threads(st.threads, move |_| {
+        let mut svc = proto.lock().unwrap().clone();
+        let waker = futures::task::noop_waker();
+        let mut cx = std::task::Context::from_waker(&waker);
+        for _ in 0..iters {
+            if !matches!(svc.poll_ready(&mut cx), std::task::Poll::Ready(Ok(()))) {
+                continue;
+            }
+            let mut f = Box::pin(svc.call(()));
+            match f.as_mut().poll(&mut cx) {
+                std::task::Poll::Ready(Ok(())) => a2.fetch_add(1, Ordering::Relaxed),
+                std::task::Poll::Ready(Err(_)) => r2.fetch_add(1, Ordering::Relaxed),
+                std::task::Poll::Pending => u2.fetch_add(1, Ordering::Relaxed),
+            };
+        }
+    });
+    let (a, rej, und, ent) = (
+        admitted.load(Ordering::SeqCst),
+        rejected.load(Ordering::SeqCst),
+        undecided.load(Ordering::SeqCst),
+        entered.load(Ordering::SeqCst),
+    );
+    let what = format!(
+        "{} threads x {} calls through clones of one {} limiter ({} permits in the current window, timeout_duration {} ms)",
+        st.threads,
+        st.iters,
+        ["fixed-window", "sliding-log", "sliding-counter"][st.window as usize % 3],
+        limit,
+        st.timeout_ms
+    );
+    let want = total.min(limit);
+    if a != want || rej != total - want || und != 0 {
+        r.fail(format!(
+            "{what}: {a} admitted, {rej} rejected, {und} undecided at their first poll; with spare capacity a call is admitted at once, so exactly {want} are admitted and {} rejected",
+            total - want
+        ));
+    }
+    if ent != a {
+        r.fail(format!("{what}: {a} calls admitted but the wrapped service was entered {ent} times"));
+    }
+    if let Some(p) = panicked {
+        r.fail(format!("a rate limiter call panicked on a stress thread: {p}"));
+    }
+    r.nontrivial = true;
+    r.class("real_thread_stress");
+    r.trace = json!({"admitted": a, "rejected": rej, "undecided": und, "entered": ent, "stress": st});
+    r
 }
 
 /// Periods P (ms) for which the f64 quotient (2P)/P evaluates below 2.0 (sliding-counter bucket
@@ -166,6 +296,7 @@ fn case_strategy(tier: Tier) -> BoxedStrategy<RlCase> {
                 order,
                 busy: if stall.is_some() { None } else { busy },
                 listeners,
+                stress: None,
                 stall,
             },
         )
@@ -761,7 +892,7 @@ impl Property for C15 {
         "C15"
     }
     fn strategy(&self, tier: Tier) -> BoxedStrategy<RlCase> {
-        case_strategy(tier)
+        prop_oneof![300 => case_strategy(tier), 1 => stress_strategy(tier)].boxed()
     }
     fn budget(&self, tier: Tier) -> (u32, usize) {
         match tier {
@@ -770,6 +901,9 @@ impl Property for C15 {
         }
     }
     fn run(&self, case: &RlCase) -> Report {
+        if let Some(st) = &case.stress {
+            return run_rl_stress(st);
+        }
         let v = run_rl(case);
         let mut r = Report::default();
         if let Some(m) = v.c15.first() {
@@ -781,7 +915,7 @@ impl Property for C15 {
         r
     }
     fn rule(&self) -> String {
-        "same generated histories as C02. Oracles: every caller is admitted or rejected (RateLimited) no later than arrival + timeout_duration and nobody is undecided at a quiescent instant past it; an admitted caller enters the inner service exactly once and gets its own response, a rejected or cancelled-while-waiting caller never enters; a caller denied entry in its arrival instant implies >= limit admissions within the last P (fixed, log) / 3P (counter: widest span of its two buckets); after >= 2P without any activity the next limit arrivals enter in their arrival instants. Non-trivial: the case has a rejection, a waited admission or an arrival after >= 2P of idleness; distinct by hash of the case".into()
+        "same generated histories as C02 (about one case in 300 is instead a real-thread stress: 2-8 OS threads x 4000/30000 calls through clones of one limiter whose window never ends, timeout 0-5 ms, with more permits than calls - nobody rejected - or with l permits - exactly l admitted at their first poll). Oracles: every caller is admitted or rejected (RateLimited) no later than arrival + timeout_duration and nobody is undecided at a quiescent instant past it; an admitted caller enters the inner service exactly once and gets its own response, a rejected or cancelled-while-waiting caller never enters; a caller denied entry in its arrival instant implies >= limit admissions within the last P (fixed, log) / 3P (counter: widest span of its two buckets); after >= 2P without any activity the next limit arrivals enter in their arrival instants. Non-trivial: the case has a rejection, a waited admission or an arrival after >= 2P of idleness; distinct by hash of the case".into()
     }
     fn assumptions(&self) -> Vec<String> {
         vec![
